@@ -373,6 +373,11 @@ class Ctx:
             "notes": self.notes,
             "known_findings_printed": self.known_printed,
         })
+        if getattr(self, "gen", None):
+            cov["trusted_base"] = cov["trusted_base"] + [
+                "translator vcheck/py2coq.py (fail-closed Python-ast -> Gallina, regenerated from /repo on every run: %s) and its semantic table coq/Gen/PyRt.v "
+                "(Python int = Z, int/int true division = exact Q, list / slice / negative-index / itertools.accumulate / np.zeros / np.ones / np.vstack / "
+                "fancy-index and row-slice store semantics)" % ", ".join(self.gen)]
         if extra:
             cov.update(extra)
         lines = []
